@@ -10,7 +10,7 @@ RULE = ("case = (frame of 1..64 bytes incl. every CAN FD length and odd lengths,
         "Every decode/encode is observed on objects with a history: the first use of a frame is made with its signals somewhere else "
         "(then moved into place by assignment), each call is repeated, and once more after another detour; an encode request is also "
         "made with one values dict used for several selector values. A result that depends on that history is a failure. "
-        "Frames longer than 8 bytes are CAN FD frames and the next FD length above the declared one is among the payload lengths; a third of the Motorola signals are placed by set_startbit(msb number, bitNumbering=1) as a DBC reader does. One multiplexer in four is signed; 30 % of the frames carry signals with physical scaling, limits and start values; container frames with header signals and PDUs are checked against the length rule on the implementation itself (unpack with the opt-in equals unpack of the padded / cut payload). Frames with extended multiplexing (root multiplexer, nested multiplexers to depth 3 with disjoint selector ranges, signals bound by 1..2 ranges, as the DBC reader records SG_MUL_VAL_) are decoded with payloads steered along a root-to-leaf path and stand in the length cases like the other kinds. Every way into the decoder is taken for every kind of frame: Frame.decode, Frame.unpack, CanMatrix.decode, CanMatrix.decode_pycan (message object with a bytearray), CanMatrix.decode in a J1939 matrix by identifier and, for another source address, by parameter group; the frame under test stands between other frames of other lengths (one with the same number in the other identifier format); the closing sweep runs all lengths 0..2*size through each of them for plain, multiplexed, extended-multiplexed and container frames. Each payload is also handed over as a bytearray: same result, buffer unchanged. Non-trivial = distinct case whose payload is not constant or whose length differs from the declared one.")
+        "Frames longer than 8 bytes are CAN FD frames and the next FD length above the declared one is among the payload lengths; a third of the Motorola signals are placed by set_startbit(msb number, bitNumbering=1) as a DBC reader does. One multiplexer in four is signed; 30 % of the frames carry signals with physical scaling, limits and start values; container frames with header signals and PDUs are checked against the length rule on the implementation itself (unpack with the opt-in equals unpack of the padded / cut payload). Frames with extended multiplexing (root multiplexer, nested multiplexers to depth 3 with disjoint selector ranges, signals bound by 1..2 ranges, as the DBC reader records SG_MUL_VAL_) are decoded with payloads steered along a root-to-leaf path and stand in the length cases like the other kinds. Every way into the decoder is taken for every kind of frame: Frame.decode, Frame.unpack, CanMatrix.decode, CanMatrix.decode_pycan (message object with a bytearray), CanMatrix.decode in a J1939 matrix by identifier and, for another source address, by parameter group; the frame under test stands between other frames of other lengths (one with the same number in the other identifier format); the closing sweep runs all lengths 0..2*size through each of them for plain, multiplexed, extended-multiplexed and container frames. Each payload is also handed over as a bytearray: same result, buffer unchanged. A third of all cases (random streams and exhaustive sweeps alike) use signals that carry descriptive data, which is no business of the raw codec: value tables keyed around what the payload holds in the signal's own bits (the plain bit pattern, its two's complement reading, both, their neighbours, the corners of the range, keys beyond the range), units, comments, receivers, attributes, named enumerations, comments / attributes / transmitters of the frame, value tables and attribute definitions of the matrix; container frames get tables on header and PDU signals. Non-trivial = distinct case whose payload is not constant or whose length differs from the declared one.")
 PARTIAL = ["struct.unpack('>f'/'>d') (IEEE-754 conversion) is trusted: float signals are compared as bit patterns, NaN as a class",
            "PDU-container frames are modelled up to the length check only"]
 ASSUMPTIONS = ["signal names unique within a frame", "placements inside the frame (start+size <= 8*len); Python's negative-index "
@@ -122,7 +122,105 @@ def steer(rng, fd, data):
 DECODE_APIS = ["decode", "mdecode", "pycan", "jdecode", "jpgn"]
 
 
+def effective_payload(fd, data):
+    """the bytes the signals are read from: a short payload as padded with 0xFF, a long one as cut"""
+    return (list(data) + [0xFF] * max(0, fd["size"] - len(data)))[:fd["size"]]
+
+
+def pattern_of(d, eff):
+    """the number formed by the payload bits of signal d, read as unsigned (generator side, from the convention's addresses)"""
+    u = 0
+    for i, addr in enumerate(F.sig_addrs(d[3], d[1], d[2])):
+        if addr // 8 < len(eff) and (eff[addr // 8] >> (addr % 8)) & 1:
+            u |= 1 << i
+    return u
+
+
+def describe(rng, fd, data):
+    """descriptive data for the signals of the case - no business of the raw codec, which reads bits whatever the signal is said to
+    mean.  Value tables are keyed around what the payload holds in the signal's bits: the plain bit pattern (tables of
+    enumerations are often written that way also for signals declared signed), its two's complement reading, both, neighbours,
+    the corners of the range and keys beyond it.  {"vals": {signal: [[key, text], ...]}, "misc": bool}"""
+    eff = effective_payload(fd, data)
+    vals = {}
+    for d in fd["sigs"]:
+        if rng.random() < 0.25:
+            continue
+        n = d[2]
+        u = pattern_of(d, eff)
+        sgn = u - (1 << n) if u >> (n - 1) else u
+        corners = [0, 1, (1 << n) - 1, (1 << n) - 2, 1 << (n - 1), (1 << (n - 1)) - 1, -1, -(1 << (n - 1))]
+        k = rng.random()
+        if k < 0.35:
+            keys = [u] + rng.sample([u + 1, u - 1, 0, 1, (1 << n) - 1], rng.randint(0, 3))      # keyed by bit pattern
+            keys = [x for x in keys if x != sgn or x == u]
+        elif k < 0.5:
+            keys = [sgn] + rng.sample([sgn + 1, sgn - 1, 0, -1], rng.randint(0, 2))            # keyed by the signed reading
+        elif k < 0.62:
+            keys = [u, sgn]
+        elif k < 0.72:
+            keys = [u + (1 << n), sgn - (1 << n), (1 << n) - 1 - u]                               # keys that are no value of the signal
+        elif k < 0.9:
+            keys = rng.sample(corners, rng.randint(1, 5))
+        else:
+            keys = [rng.randrange(-(1 << n), 2 << n) for _ in range(rng.randint(1, 4))]
+        seen = []
+        for x in keys:
+            if x not in seen:
+                seen.append(x)
+        vals[d[0]] = [[x, "T%d" % j] for j, x in enumerate(seen)]
+    return {"vals": vals, "misc": rng.random() < 0.5}
+
+
+def apply_description(fr, ds, db=None):
+    """hang the descriptive data on the objects under test (public setters of canmatrix)"""
+    for name, table in sorted(ds.get("vals", {}).items()):
+        sg = fr.signal_by_name(name)
+        if sg is None:
+            continue
+        for key, text in table:
+            sg.add_values(key, text)
+    pdu_sigs = [sg for pdu in getattr(fr, "pdus", []) for sg in pdu.signals]
+    if fr.is_pdu_container:
+        # header and PDU signals of a container: tables over the numbers that occur there
+        for sg in list(fr.signals) + pdu_sigs:
+            for key in (0, 2, 10, 11, 99, 0x5A, 0xFF, (1 << sg.size) - 1):
+                sg.add_values(key, "C%d" % key)
+    if ds.get("misc"):
+        for k, sg in enumerate(list(fr.signals) + pdu_sigs):
+            sg.unit = ["", "km/h", "\u00b0C"][k % 3]
+            sg.add_comment("signal %d" % k)
+            sg.add_receiver("E%d" % (k % 2))
+            sg.add_attribute("GenSigStartValue", str(k))
+            sg.add_attribute("SigKind", "enum" if sg.values else "number")
+            if sg.values:
+                sg.enumeration = "VT_" + sg.name
+        fr.add_comment("frame under test")
+        fr.add_attribute("GenMsgCycleTime", "100")
+        fr.add_transmitter("E0")
+        if db is not None:
+            db.add_signal_defines("GenSigStartValue", "INT 0 100")
+            db.add_signal_defines("SigKind", 'ENUM "number","enum"')
+            db.add_frame_defines("GenMsgCycleTime", "INT 0 65535")
+            db.add_define_default("GenSigStartValue", "0")
+            for sg in fr.signals:
+                if sg.values:
+                    db.add_value_table("VT_" + sg.name, dict(sg.values))
+
+
 def gen(rng, tier, shard, nshards):
+    """the streams of _gen, unchanged; a third of the cases additionally get signals that carry descriptive data (chosen by a
+    generator of its own, seeded with the case, so that frames and payloads of the streams stay what they are)"""
+    import random
+    for case in _gen(rng, tier, shard, nshards):
+        drng = random.Random("C01-describe|" + repr(sorted(case["c"].items(), key=lambda kv: kv[0])))
+        if drng.random() < 0.34:
+            c = case["c"]
+            c["f"] = dict(c["f"], ds=describe(drng, c["f"], c["data"]))
+        yield case
+
+
+def _gen(rng, tier, shard, nshards):
     total = {"quick": 28000, "thorough": 560000}[tier]
     n = total // nshards
     for i in range(n):
@@ -206,6 +304,10 @@ def neighbours(case, rng, shard, nshards):
         for s in fd["sigs"]:
             if rng.random() < 0.3 and not s[6]:
                 s[4] = not s[4]
+        if c["f"].get("sc"):
+            fd["sc"] = True
+        if c["f"].get("ds"):
+            fd["ds"] = describe(rng, fd, data)
         yield {"op": "dec", "c": {"f": fd, "data": data, "at": rng.random() < 0.5, "ae": rng.random() < 0.5, "api": c["api"]}}
 
 
@@ -241,9 +343,14 @@ def build(c):
         fr = F.mkframe(dict(fd, j=True), arbid=0x18FEF100 + 0x21, extended=True)
     else:
         fr = F.mkframe(fd)
+    ds = fd.get("ds")
     if api in ("decode", "unpack"):
+        if ds:
+            apply_description(fr, ds)
         return fr, api, None
     db = cm.CanMatrix()
+    if ds:
+        apply_description(fr, ds, db)
     aid = fr.arbitration_id
     # (in the J1939 matrix the neighbour belongs to the next parameter group)
     db.add_frame(cm.Frame("before", arbitration_id=cm.ArbitrationId(aid.id + (0x100 if aid.extended else 1), aid.extended),
@@ -302,6 +409,20 @@ def features(case, impl):
         if "ok" in impl and isinstance(impl["ok"], dict):
             yield "extended-mux: active multiplexers=%d" % sum(1 for s in fd["sigs"] if s[6] and s[0] in impl["ok"])
     yield "result=" + ("err:" + impl["err"] if "err" in impl else "ok")
+    ds = fd.get("ds")
+    yield "descriptive data=" + ("none" if not ds else "value tables+misc" if ds["misc"] else "value tables")
+    if ds and len(c["data"]) and not fd.get("ctfull"):
+        eff = effective_payload(fd, c["data"])
+        for s in fd["sigs"]:
+            keys = [k for k, _t in ds["vals"].get(s[0], [])]
+            if keys:
+                u = pattern_of(s, eff)
+                sgn = u - (1 << s[2]) if u >> (s[2] - 1) else u
+                yield "value table%s: %s" % ("/signed" if s[4] and not s[5] else "/float" if s[5] else "/unsigned",
+                                             "both readings keyed" if u in keys and sgn in keys and u != sgn else
+                                             "value keyed (non-negative)" if u in keys and u == sgn else
+                                             "bit pattern keyed, signed reading not" if u in keys else
+                                             "signed reading keyed, bit pattern not" if sgn in keys else "payload's value not keyed")
     for s in fd["sigs"]:
         yield "sig:%s%s%s" % ("intel" if s[3] else "motorola", "/float" if s[5] else "/signed" if s[4] else "/unsigned",
                                "/w64" if s[2] == 64 else "/w1" if s[2] == 1 else "")
